@@ -212,6 +212,28 @@ func dependsOn(v ssa.Value, target func(ssa.Value) bool) bool {
 				}
 			}
 		}
+		// composite values built in a local cell (varargs arrays, struct literals): what is stored into its parts
+		if a, ok := v.(*ssa.Alloc); ok {
+			for _, ref := range *a.Referrers() {
+				var addr ssa.Value
+				switch x := ref.(type) {
+				case *ssa.IndexAddr:
+					addr = x
+				case *ssa.FieldAddr:
+					addr = x
+				}
+				if addr == nil {
+					continue
+				}
+				for _, r2 := range *addr.Referrers() {
+					if st, ok := r2.(*ssa.Store); ok && st.Addr == addr {
+						if rec(st.Val, depth+1) {
+							return true
+						}
+					}
+				}
+			}
+		}
 		for _, o := range operandsOf(v) {
 			if rec(o, depth+1) {
 				return true
